@@ -91,10 +91,19 @@ def gen_doc(tape: Tape, marker: str, style: str = "canonical", size: int = 0) ->
                 lines.append(f"{k}::" + tape.pick(ATOMS, "a") + "→" + tape.pick(ATOMS, "b"))
     if style == "lenient":
         lines.append("LEN::p + q")
+    if style == "unicode":
+        lines.append('Ключ::"значение ☃ é 𝔘"')
+        lines.append("ÅB::naïve")
+    if style == "longline":
+        lines.append('LONG::"' + "x" * 20000 + '"')
+    if style == "trail":
+        lines = [ln + "   " if i % 2 else ln for i, ln in enumerate(lines)]
     for j in range(size):
         lines.append(f"PAD{j}::\"{marker}-{'x' * 80}-{j}\"")
     if style != "noenvelope":
         lines.append("===END===")
+    if style == "nonl":
+        return "\n".join(lines)
     return "\n".join(lines) + "\n"
 
 
